@@ -136,8 +136,13 @@ def generic(mod, tier, seed, replay):
 
     nontriv = set()
     for s, o in zip(scs, obs):
-        if mod.nontrivial(s, o):
-            nontriv.add(core.scen_hash(s))
+        if isinstance(o, dict) and "driver_error" in o:
+            continue              # (reported above as a correspondence that could not be evaluated)
+        try:
+            if mod.nontrivial(s, o):
+                nontriv.add(core.scen_hash(s))
+        except Exception:  # noqa: BLE001 - the coverage measure must never take the check down
+            pass
     obs_hist = collections.Counter(json.dumps(o, default=str)[:60] for o in obs)
     coverage = {
         "evaluations": len(scs),
